@@ -1,5 +1,5 @@
 """C05 a write statement that fails changes nothing (CypherWrite.tla Mode C05, harness bin cywrite)."""
-from .cywrite_common import gen, trace_cfg, corrupt_dump
+from .cywrite_common import gen, trace_cfg, corrupt_dump, cap
 
 INV = "C11_NoDuplicate"
 PROPS = "C05_ErrorChangesNothing"
@@ -14,7 +14,8 @@ def run(ctx):
     #   UNWIND [v1..vk] AS x CREATE (:A {k: 10/x}) | UNWIND .. MERGE (n:A {k: 10/x}) | MATCH (n:A) SET n.k = 10/n.p
     #   | MATCH (n:A) CREATE (:A {k: 10/n.p}) | MATCH (n:B) SET n:A        with :A(k) unique
     scripts = ctx.tlc_gen("MC_CypherWrite", gen("C05", 6 if q else 7, 1, 5, emit="EmitFaulty", inv=INV, props=PROPS,
-                                                listlen=3 if q else 4, rich=not q), "faults", timeout=3000)
+                                                listlen=3 if q else 4, rich=not q), "faults", timeout=3000, workers=1)
+    scripts = cap(ctx, scripts, 6000 if q else 60000, "faults")
     ctx.assume("graphs of <= 3 nodes built by CREATE statements after CREATE CONSTRAINT :A(k); UNWIND lists of length <= %d over "
                "{1,2,0,'a'%s}: 10/x fails on 0 (zero divisor) and 'a' (operand type) and collides on repeated values" % (3 if q else 4, "" if q else ",5"),
                "index / constraint probes = MATCH (n:L {k:v}) and MATCH (n:L) WHERE n.k = v for every value k can take, label scans "
